@@ -714,3 +714,69 @@ pub fn gen_c15(tier: &str, rng: &mut Rng, emit: &mut Emit) {
         emit.case(41, l(vec![l(vec![a(4), a(0), a(v)]), l(vec![a(4), a(64), a(v)])]));
     }
 }
+
+/// C18: caller-controlled counts / sizes at field maximum, maximum + 1 and far beyond
+pub fn gen_c18(tier: &str, rng: &mut Rng, emit: &mut Emit) {
+    let int5 = || l(vec![a(4), a(8), a(5)]);
+    // package element counts
+    for k in [254usize, 255, 256, 257, 300, 511, 512, 1000, 65_536] {
+        let es: Vec<Sx> = (0..k).map(|_| int5()).collect();
+        emit.case(40, l(vec![a(60), l(es.clone())]));
+        emit.case(40, l(vec![a(61), l(es.clone())]));
+        // nested inside other objects: the refusal must propagate
+        emit.case(40, l(vec![a(40), bytes(b"PKG0"), l(vec![a(60), l(es)])]));
+    }
+    // method argument counts
+    for ar in [6u64, 7, 8, 9, 15, 16, 255] {
+        emit.case(40, l(vec![a(44), bytes(b"MTH0"), a(ar), a(rng.below(2)), l(vec![int5()])]));
+    }
+    // Arg / Local indices
+    for n in [6u64, 7, 8, 255] {
+        emit.case(40, l(vec![a(12), a(n)]));
+        emit.case(40, l(vec![a(13), a(n)]));
+    }
+    // name segment counts (also through component 4 in the C09 generator)
+    for k in [254usize, 255, 256, 257, 300, 1000] {
+        let mut s = Vec::new();
+        for i in 0..k {
+            if i > 0 {
+                s.push(b'.');
+            }
+            s.extend(seg(rng));
+        }
+        emit.case(40, l(vec![a(7), bytes(&s)]));
+        emit.case(40, l(vec![a(47), bytes(&s), a(1)]));
+        emit.case(4, bytes(&s));
+    }
+    // address ranges whose size overflows the field width, or with min > max
+    for (w, bits) in [(16u64, 16u32), (32, 32), (64, 64)] {
+        let full = if bits == 64 { u64::MAX } else { (1u64 << bits) - 1 };
+        for (min, max) in [(0u64, full), (1, 0), (full, 0), (5, 4), (0, full - 1), (1, full), (full, full), (full / 2 + 1, full / 2)] {
+            for ty in 0..3u64 {
+                emit.case(40, l(vec![a(21), a(w), a(ty), a(rng.below(4)), a(rng.below(2)), a(min), a(max), l(vec![])]));
+            }
+        }
+        for _ in 0..200 {
+            let (x, y) = (rng.val(bits), rng.val(bits));
+            emit.case(40, l(vec![a(21), a(w), a(rng.below(3)), a(0), a(1), a(x), a(y), l(vec![])]));
+        }
+    }
+    // field entry lengths (exclusive PkgLength form, no body needed)
+    for len in [(1u64 << 28) - 2, (1 << 28) - 1, 1 << 28, (1 << 28) + 1, 1 << 32, 1 << 40, u64::MAX - 4, u64::MAX] {
+        emit.case(40, l(vec![a(51), bytes(b"FLD0"), a(1), a(0), a(0), l(vec![l(vec![a(1), a(len)])])]));
+        emit.case(40, l(vec![a(51), bytes(b"FLD0"), a(1), a(0), a(0), l(vec![l(vec![a(0), bytes(b"ABCD"), a(len)])])]));
+    }
+    // PkgLength through the hook, both forms
+    for n in [(1u64 << 28) - 5, (1 << 28) - 4, (1 << 28) - 3, (1 << 28) - 1, 1 << 28, (1 << 28) + 1, 1 << 29, 1 << 32, 1 << 40, (1 << 62) + 5] {
+        emit.case(2, l(vec![a(n), a(1)]));
+        emit.case(2, l(vec![a(n), a(0)]));
+    }
+    if tier == "thorough" {
+        // a real body of 2^28 bytes (and just below): every framed object kind must refuse / accept it
+        for k in [(1usize << 28) - 16, 1 << 28] {
+            let big = l(vec![a(11), bytes(&vec![0xAB; k])]);
+            emit.case(40, big.clone());
+            emit.case(40, l(vec![a(42), bytes(b"ABCD"), l(vec![big])]));
+        }
+    }
+}
